@@ -235,7 +235,11 @@ def gen_e2e(rng):
     streams = gen_streams(rng)
     # (options are not part of this model: the option sanitiser -- e.g. a non-positive DT_PHASE_CHANGE is replaced -- is modelled and
     #  checked by C14's cfg suite)
-    return dict(streams=streams, utilities=gen_utilities(rng, streams))
+    inp = dict(streams=streams, utilities=gen_utilities(rng, streams))
+    if rng.random() < 0.15:
+        # unit-operation zones are targeted too (after their parent): the parent's record must keep its own duties
+        inp["options"] = dict(DO_DIRECT_OPERATION_TARGETING=True)
+    return inp
 
 
 # ---- stage level: get_utility_targets on a synthetic table -------------------------------------------------------
@@ -492,6 +496,8 @@ def e2e_candidates(inp):
         if u["dt_cont"] != 0.0:
             sh = u["dt_cont"] if u["type"] == "Hot" else -u["dt_cont"]
             c.append(dict(streams=ss, utilities=us[:i] + [dict(u, dt_cont=0.0, t_supply=u["t_supply"] - sh, t_target=u["t_target"] - sh)] + us[i + 1:]))
+    if inp.get("options"):
+        c = [dict(x, options=inp["options"]) for x in c] + [dict(streams=ss, utilities=us)]
     return c
 
 
@@ -699,6 +705,8 @@ def replay_case(ctx, prop, data):
         print(json.dumps(dict(status=st, clauses=[CODE.get(c, c) for c in codes], verdict=v, observed=o), indent=1, default=str))
         return
     case = dict(streams=inp["streams"], utilities=inp["utilities"])
+    if inp.get("options"):
+        case["options"] = inp["options"]
     objs, _ = judge_e2e_batch(ctx, prop, [case], "replay")
     for nm, st, codes, v, d in objs[0]:
         print(json.dumps(dict(object=nm, status={0: "agree", 1: "fragile", 2: "model != implementation", 3: "property false",
